@@ -25,6 +25,48 @@ PARAMS = {
 SRC_FILE = 'src.txt'           # the only file_dep that is not a target: created by the harness
 
 
+# ---- written forms of a file name (targets / file_dep / command-line words)
+#   'o1.out'            a str, taken literally by doit (selection by target, implicit task_dep and duplicate-target
+#                       detection compare strings: './o1.out' and 'o1.out' are different names)
+#   {'path': './o1.out'} a pathlib.Path in the task dict: doit keeps str(path), i.e. pathlib's normal form 'o1.out'
+#   '@ABS@/o1.out'       absolute spelling; '@ABS@' stands for the directory of the run (substituted when the real task
+#                       dict / argv is built; the model compares the placeholder spelling, the substitution is injective)
+ABS = '@ABS@'
+_ROOT = ['/abs-root-of-the-run']
+
+
+def mstr(entry):
+    """the string doit keeps for a targets / file_dep entry (what the model compares)"""
+    if isinstance(entry, dict):
+        import pathlib
+        return str(pathlib.PurePosixPath(entry['path']))
+    return entry
+
+
+def sub(s):
+    return s.replace(ABS, _ROOT[0]) if isinstance(s, str) else s
+
+
+def unsub(s):
+    return s.replace(_ROOT[0], ABS) if isinstance(s, str) else s
+
+
+def real_entry(entry):
+    """the value put into the real task dict"""
+    if isinstance(entry, dict):
+        import pathlib
+        return pathlib.Path(sub(entry['path']))
+    return sub(entry)
+
+
+def mtargets(d):
+    return [mstr(e) for e in d.get('targets', []) or []]
+
+
+def mfile_dep(d):
+    return [mstr(e) for e in d.get('file_dep', []) or []]
+
+
 def model_param(pname):
     p = PARAMS[pname]
     return {'short': p.get('short', ''), 'long': p.get('long', ''), 'val': p['type'] is not bool}
@@ -60,8 +102,8 @@ def model_tasks(case):
                         'pos_arg': False, 'delayed': True, 'utd': False})
         else:
             res.append({'name': full, 'task_dep': list(d.get('task_dep', [])), 'setup': list(d.get('setup', [])),
-                        'calc_dep': list(d.get('calc_dep', [])), 'file_dep': sorted(d.get('file_dep', [])),
-                        'targets': list(d.get('targets', [])), 'has_subtask': False,
+                        'calc_dep': list(d.get('calc_dep', [])), 'file_dep': sorted(mfile_dep(d)),
+                        'targets': mtargets(d), 'has_subtask': False,
                         'params': [model_param(p) for p in d.get('params', [])], 'pos_arg': bool(d.get('pos_arg')),
                         'delayed': bool(d.get('delayed')), 'utd': bool(d.get('utd'))})
     return res
@@ -70,6 +112,8 @@ def model_tasks(case):
 def request(case, obs=None):
     req = {'model': 'sel', 'tasks': model_tasks(case), 'args': list(case['argv']), 'default': case.get('default'),
            'single': bool(case.get('single'))}
+    if case.get('entry'):
+        req['entry'] = case['entry']
     if obs is not None:
         req['obs'] = obs
     return req
@@ -81,14 +125,19 @@ def request(case, obs=None):
 def _task_dict(full, d, events):
     def action(**kw):
         events.append(['run', full, {k: kw[k] for k in sorted(kw)}])
-        for tg in d.get('targets', []):
-            with open(tg, 'w') as f:
+        for tg in mtargets(d):
+            with open(sub(tg), 'w') as f:
                 f.write(full)
         return True
     dct = {'actions': [action]}
-    for key in ('task_dep', 'setup', 'calc_dep', 'file_dep', 'targets'):
+    for key in ('task_dep', 'setup', 'calc_dep'):
         if d.get(key):
             dct[key] = list(d[key])
+    for key in ('file_dep', 'targets'):
+        if d.get(key):
+            dct[key] = [real_entry(e) for e in d[key]]
+            if d.get('pathform') == 'tuple':
+                dct[key] = tuple(dct[key])
     if d.get('params'):
         dct['params'] = [dict(PARAMS[p]) for p in d['params']]
     if d.get('pos_arg'):
@@ -137,7 +186,7 @@ def build_namespace(case, events):
 def err_obs(ex):
     name = type(ex).__name__
     if name == 'InvalidCommand' and getattr(ex, 'not_found', None) is not None:
-        return ['notFound', ex.not_found]
+        return ['notFound', unsub(ex.not_found)]
     if name == 'CmdParseError':
         return ['optErr']
     return ['exc', name]
@@ -156,13 +205,15 @@ def impl_control(case):
         tasks = loader.load_tasks(ns, allow_delayed=True)
         tc = TaskControl(tasks)
         out['deps'] = [[t.name, list(t.task_dep)] for t in tasks]
-        sel = list(case['argv']) or case.get('default')        # DoitCmdBase.execute: `args or default_tasks`
+        sel = [sub(a) for a in case['argv']] or case.get('default')   # DoitCmdBase.execute: `args or default_tasks`
+        if sel is not None:
+            sel = [sub(a) for a in sel]
         try:
             tc.process(list(sel) if sel is not None else None)
             out['sel'] = ['ok', list(tc.selected_tasks)]
         except Exception as ex:  # noqa
             out['sel'] = err_obs(ex)
-        out['pos'] = sorted([t.name, list(t.pos_arg_val)] for t in tasks
+        out['pos'] = sorted([t.name, [unsub(v) for v in t.pos_arg_val]] for t in tasks
                             if t.pos_arg is not None and t.pos_arg_val is not None)
     except Exception as ex:  # noqa
         out['sel'] = ['exc', type(ex).__name__ + ':' + str(ex)[:80]]
@@ -204,7 +255,7 @@ def _reporter_class():
 
 def classify_stderr(err):
     if 'invalid parameter: "' in err:
-        return ['notFound', err.split('invalid parameter: "', 1)[1].split('". Must be', 1)[0]]
+        return ['notFound', unsub(err.split('invalid parameter: "', 1)[1].split('". Must be', 1)[0])]
     if 'Error parsing Task' in err:
         return ['optErr']
     if 'Cyclic/recursive' in err:
@@ -230,16 +281,18 @@ def impl_cli(case, workdir):
             os.remove(p)
     old = os.getcwd()
     os.chdir(workdir)
+    _ROOT[0] = os.path.realpath(workdir)
     events = []
+    api_error = None
     del _REC[:]
     out_s, err_s = io.StringIO(), io.StringIO()
     try:
         with open(SRC_FILE, 'w') as f:
             f.write('src')
         for full, d, grp, is_group in flat_defs(case):
-            for tg in ([] if is_group else list(d.get('targets', [])) + list(d.get('file_dep', []))):
+            for tg in ([] if is_group else mtargets(d) + mfile_dep(d)):
                 # --single drops the implicit task_dep on the producer of a file_dep: the file must exist anyway
-                with open(tg, 'w') as f:
+                with open(sub(tg), 'w') as f:
                     f.write('pre')
         ns = build_namespace(case, events)
         # doit's own reporters write to the stream bound at import time (the real stdout): send them to a file
@@ -253,12 +306,26 @@ def impl_cli(case, workdir):
         else:
             rep_opt = ['-r', reporter] if case.get('reporter_via') != 'long' else ['--reporter=' + reporter]
         if case.get('default') is not None:
-            cfg['default_tasks'] = list(case['default'])
+            cfg['default_tasks'] = [sub(a) for a in case['default']]
         ns['DOIT_CONFIG'] = cfg
-        argv = ['run'] + rep_opt + (['--single'] if case.get('single') else []) + list(case['argv'])
+        argv = ['run'] + rep_opt + (['--single'] if case.get('single') else []) + [sub(a) for a in case['argv']]
         with contextlib.redirect_stdout(out_s), contextlib.redirect_stderr(err_s):
             try:
-                code = DoitMain(ModuleTaskLoader(ns)).run(argv)
+                if case.get('entry') == 'run_tasks':
+                    # doit.api.run_tasks: the selection is the list of keys, no command line is parsed; user errors are
+                    # raised to the caller (observed as the exit class 3 + the error)
+                    from doit.api import run_tasks
+                    from doit.cmdparse import CmdParseError
+                    from doit.exceptions import InvalidCommand, InvalidDodoFile, InvalidTask
+                    if case.get('single'):
+                        cfg['single'] = True
+                    try:
+                        code = run_tasks(ModuleTaskLoader(ns), {sub(a): {} for a in case['argv']})
+                    except (CmdParseError, InvalidDodoFile, InvalidCommand, InvalidTask) as e:
+                        code = 3
+                        api_error = err_obs(e)
+                else:
+                    code = DoitMain(ModuleTaskLoader(ns)).run(argv)
             except SystemExit as e:
                 code = e.code
             except BaseException as e:  # noqa
@@ -281,7 +348,8 @@ def impl_cli(case, workdir):
         # doit's own reporter was in use: what is observed is what the recording actions wrote, in their order
         processed = list(dict.fromkeys(ran))
         started = list(processed)
-    return {'actions_only': actions_only, 'exit': code, 'error': classify_stderr(err_s.getvalue()), 'processed': processed, 'started': started,
+    return {'actions_only': actions_only, 'exit': code,
+            'error': api_error if case.get('entry') == 'run_tasks' else classify_stderr(err_s.getvalue()), 'processed': processed, 'started': started,
             'ran': ran, 'kwargs': kwargs, 'reporter': rec,
             'runtime_error': [r[1] for r in rec if r[0] == 'runtime_error']}
 
@@ -311,7 +379,7 @@ def lit_pattern(pat):
     """generated PATTERNS stay inside what the model's glob supports (`*`, `?`, literals): a `[` or `]` taken over from
     a task name becomes `?` (still matches that name)"""
     return pat.replace('[', '?').replace(']', '?')
-TARGET_POOL = ['o1.out', 'o2.out', 'gen.c', 'a', 'b', 't1', 'build', 'p', 'q.o', 'ab:c']
+TARGET_POOL = ['o1.out', 'o2.out', 'gen.c', 'a', 'b', 't1', 'build', 'p', 'q.o', 'ab:c', 'x=1.o']
 
 
 def all_names(case):
@@ -324,7 +392,7 @@ def edges_of(case):
     names = [f[0] for f in defs]
     prod = {}
     for full, d, grp, is_group in defs:
-        for tg in ([] if is_group else d.get('targets', [])):
+        for tg in ([] if is_group else mtargets(d)):
             prod.setdefault(tg, full)
     g = {}
     for full, d, grp, is_group in defs:
@@ -341,7 +409,7 @@ def edges_of(case):
             deps += ['%s:%s' % (full, s['name']) for s in d['subs']]
         else:
             deps += list(d.get('setup', [])) + list(d.get('calc_dep', []))
-            deps += [prod[f] for f in d.get('file_dep', []) if f in prod]
+            deps += [prod[f] for f in mfile_dep(d) if f in prod]
         g[full] = deps
     return g
 
@@ -371,7 +439,7 @@ def valid_case(case):
         return False
     seen_t = set()
     for full, d, grp, is_group in flat_defs(case):
-        for tg in d.get('targets', []) if not is_group else []:
+        for tg in mtargets(d) if not is_group else []:
             if tg in seen_t:
                 return False
             seen_t.add(tg)
@@ -380,6 +448,16 @@ def valid_case(case):
                 if '*' not in dep and dep not in names:
                     return False
     return is_acyclic(edges_of(case))
+
+
+def respell(rng, entry):
+    """another written form of the same file (entry: a str or {'path': ...})"""
+    base = mstr(entry)
+    if base.startswith(ABS + '/'):
+        base = base[len(ABS) + 1:]
+    while base.startswith('./'):
+        base = base[2:]
+    return rng.choice([base, './' + base, ABS + '/' + base, {'path': base}, {'path': './' + base}, './/' + base])
 
 
 def gen_taskdef(rng, name, earlier, targets_free, allow_attrs=True):
@@ -400,6 +478,10 @@ def gen_taskdef(rng, name, earlier, targets_free, allow_attrs=True):
             d['task_dep'].append(lit_pattern(pat))
     if targets_free and rng.random() < 0.35:
         d['targets'] = [targets_free.pop(rng.randrange(len(targets_free)))]
+        if rng.random() < 0.2:
+            d['targets'] = [respell(rng, d['targets'][0])]
+            if rng.random() < 0.3:
+                d['pathform'] = 'tuple'
     if rng.random() < 0.3:
         d['params'] = rng.sample(sorted(PARAMS), rng.choice([1, 1, 2, 3]))
     if rng.random() < 0.12:
@@ -444,14 +526,17 @@ def gen_tasks(rng, delayed_ok=False):
     # file_dep on targets of other tasks (implicit task_dep) and on the plain source file
     defs = flat_defs(case)
     tg_all = [(tg, full) for full, d, grp, is_group in defs if not is_group for tg in d.get('targets', [])]
+    spell = rng.random() < 0.25       # this task set writes some file names in another form
     for full, d, grp, is_group in defs:
         if is_group or d.get('utd') or d.get('delayed'):
             continue
         if tg_all and rng.random() < 0.3:
             for tg, prod in rng.sample(tg_all, min(len(tg_all), rng.choice([1, 1, 2, 3]))):
                 if prod != full:
+                    if spell and rng.random() < 0.5:
+                        tg = respell(rng, tg)       # same or another spelling of the producer's target
                     d['file_dep'].append(tg)
-                    if not is_acyclic(edges_of(case)):
+                    if not is_acyclic(edges_of(case)) or not valid_case(case):
                         d['file_dep'].remove(tg)
         if rng.random() < 0.1:
             d['file_dep'].append(SRC_FILE)
@@ -472,7 +557,7 @@ def option_tokens(rng, params, valid=True):
             forms.append(['-' + p['short']] + (['V%d' % rng.randrange(3)] if is_val else []))
             if is_val:
                 forms.append(['-%sW' % p['short']])
-                forms.append(['-' + p['short'], rng.choice(['-f', '--', 'a', 't1'])])   # a value that looks like something else
+                forms.append(['-' + p['short'], rng.choice(['-f', '--', 'a', 't1', 'a=b', 'k=1', ''])])   # a value that looks like something else
             else:
                 others = [PARAMS[q] for q in params if 'short' in PARAMS[q] and q != p['name']]
                 if others:
@@ -481,7 +566,7 @@ def option_tokens(rng, params, valid=True):
         if 'long' in p:
             if is_val:
                 forms.append(['--%s=%s' % (p['long'], rng.choice(['1', '', 'a=b']))])
-                forms.append(['--' + p['long'], 'LV'])
+                forms.append(['--' + p['long'], rng.choice(['LV', 'LV', 'a=b'])])
             else:
                 forms.append(['--' + p['long']])
         toks += rng.choice(forms)
@@ -494,12 +579,19 @@ def name_like_tokens(rng, case):
     """tokens standing at a name position: names, groups, sub-tasks, targets, patterns (0..n matches), unknown"""
     defs = flat_defs(case)
     names = [f[0] for f in defs]
-    targets = [tg for full, d, grp, is_group in defs if not is_group for tg in d.get('targets', [])]
+    targets = [tg for full, d, grp, is_group in defs if not is_group for tg in mtargets(d)]
     r = rng.random()
+    if r < 0.05:
+        # command-line variables (removed by DoitMain.process_args before selection) and the empty word
+        return rng.choice(['k=v', 'x=1', 'a=', rng.choice(names) + '=1', 'a.b=1', 'x=1.o', 'k=', ''])
     if r < 0.5:
         return rng.choice(names)
     if r < 0.6 and targets:
-        return rng.choice(targets)
+        tg = rng.choice(targets)
+        if any(isinstance(e, dict) or e.startswith(('./', ABS)) for f in defs for e in (f[1].get('targets') or [])) \
+                and rng.random() < 0.4:
+            return mstr(respell(rng, tg))      # the file under another spelling: only the declared string selects
+        return tg
     if r < 0.87:
         base = rng.choice(names)
         return lit_pattern(rng.choice(
@@ -542,7 +634,7 @@ def gen_argv(rng, case):
     return argv
 
 
-def gen_case(rng, delayed_ok=None):
+def gen_case(rng, delayed_ok=None, entry_ok=True):
     if delayed_ok is None:
         delayed_ok = rng.random() < 0.12
     for _ in range(50):
@@ -560,6 +652,15 @@ def gen_case(rng, delayed_ok=None):
         case['argv'] = saved if rng.random() < 0.35 else []
     case['single'] = rng.random() < 0.3
     r = rng.random()
+    if entry_ok and r > 0.93 and case['argv']:
+        # doit.api.run_tasks({name: {}, ...}): distinct names / patterns / targets, no option words, no name=value removal
+        keys = [a for a in dict.fromkeys(case['argv']) if a and not a.startswith('-')]
+        if keys:
+            case['argv'] = keys
+            case['entry'] = 'run_tasks'
+            if rng.random() < 0.3:
+                case['argv'].append(rng.choice(['x=1.o', 'k=v']))
+            return case
     if r < 0.35:
         # the cli run uses one of doit's own reporters; the start order is then taken from the recording actions
         case['reporter'] = rng.choice(['json', 'json', 'json', 'zero', 'executed-only', 'console', 'error-only'])
@@ -584,5 +685,210 @@ def render(case):
         if case.get('reporter_via') == 'config':
             cfg += ' DOIT_CONFIG reporter=%r' % case['reporter']
     rep = '' if case.get('reporter') is None or case.get('reporter_via') == 'config' else '-r %s ' % case['reporter']
-    return 'tasks: %s;%s  $ doit run %s%s%s' % ('; '.join(parts), cfg, rep, '--single ' if case.get('single') else '',
+    pre = ''
+    if case.get('entry') == 'run_tasks':
+        return 'tasks: %s;%s  >>> doit.api.run_tasks(loader, {%s})%s' % (
+            '; '.join(parts), cfg, ', '.join('%r: {}' % a for a in case['argv']),
+            ' [single=True]' if case.get('single') else '')
+    if case.get('layout'):
+        dodo_rel, inv, lopts, env_extra, eff = LAYOUTS[case['layout']]
+        cfg += '  [dodo file %s, tasks work in %s/]  $ cd %s; %s' % (
+            dodo_rel, eff, inv, ' '.join('%s=%s' % kv for kv in sorted(env_extra.items())))
+        if case.get('lopts_after'):
+            rep = ' '.join(lopts) + ' ' + rep
+        else:
+            pre = ' '.join(lopts) + ' '
+    return 'tasks: %s;%s  $ doit %srun %s%s%s' % ('; '.join(parts), cfg, pre if pre.strip() else '', rep, '--single ' if case.get('single') else '',
                                               ' '.join(repr(a) for a in case['argv']))
+
+
+# ----------------------------------------------------------------------------------------------
+# implementation, third way: a real dodo file found through -f / --dir / --seek-file / DOIT_FILE, `python -m doit` as a
+# subprocess started from another directory than the one the tasks work in (wave 4, audit item 6)
+
+LAYOUTS = {
+    # name: (dodo file relative to root, invocation dir, loader options, environment, effective dir of the tasks)
+    'plain': ('proj/dodo.py', 'proj', [], {}, 'proj'),
+    'seek': ('proj/dodo.py', 'proj/sub/deep', ['-k'], {}, 'proj'),
+    'seek-long': ('proj/dodo.py', 'proj/sub', ['--seek-file'], {}, 'proj'),
+    'seek-env': ('proj/dodo.py', 'proj/sub', [], {'DOIT_SEEK_FILE': '1'}, 'proj'),
+    'file': ('proj/build.py', '.', ['-f', 'proj/build.py'], {}, 'proj'),
+    'file-abs': ('proj/build.py', 'work', ['--file=@ROOT@/proj/build.py'], {}, 'proj'),
+    'file-env': ('proj/build.py', '.', [], {'DOIT_FILE': 'proj/build.py'}, 'proj'),
+    'dir': ('proj/build.py', '.', ['-f', 'proj/build.py', '--dir', 'work'], {}, 'work'),
+    'dir-short': ('proj/dodo.py', 'proj', ['-d', '../work'], {}, 'work'),
+}
+IDENT = __import__('re').compile(r'^[A-Za-z_][A-Za-z0-9_]*$')
+
+
+def dodo_ok(case):
+    return (all(IDENT.match(t['name']) for t in case['tasks']) and not any(t.get('delayed') for t in case['tasks'])
+            and case.get('reporter') is None)
+
+
+def dodo_source(case, ev_path):
+    """python source of a dodo file defining the tasks of the case, in definition order"""
+    def lit(e):
+        if isinstance(e, dict):
+            return 'pathlib.Path(%r)' % sub(e['path'])
+        return repr(sub(e))
+
+    def tdict(full, d, sub_name=None):
+        items = []
+        if sub_name is not None:
+            items.append("'name': %r" % sub_name)
+        items.append("'actions': [_mk(%r, %r)]" % (full, [sub(t) for t in mtargets(d)]))
+        for key in ('task_dep', 'setup', 'calc_dep'):
+            if d.get(key):
+                items.append('%r: %r' % (key, list(d[key])))
+        for key in ('file_dep', 'targets'):
+            if d.get(key):
+                seq = ', '.join(lit(e) for e in d[key])
+                items.append('%r: %s' % (key, '(%s,)' % seq if d.get('pathform') == 'tuple' else '[%s]' % seq))
+        if d.get('params'):
+            items.append("'params': [%s]" % ', '.join(
+                '{%s}' % ', '.join('%r: %s' % (k, v.__name__ if isinstance(v, type) else repr(v))
+                                   for k, v in PARAMS[p].items()) for p in d['params']))
+        if d.get('pos_arg'):
+            items.append("'pos_arg': 'pos'")
+        if d.get('utd'):
+            items.append("'uptodate': [True]")
+        return '{%s}' % ', '.join(items)
+    cfg = ["'dep_file': 'db.json'", "'backend': 'json'", "'verbosity': 0", "'reporter': Rec"]
+    if case.get('default') is not None:
+        cfg.append("'default_tasks': %r" % [sub(a) for a in case['default']])
+    lines = [
+        'import json, os, pathlib',
+        'from doit.reporter import ZeroReporter',
+        'EV = %r' % ev_path,
+        'def _ev(x):',
+        "    with open(EV, 'a') as f:",
+        "        f.write(json.dumps(x) + '\\n')",
+        'class Rec(ZeroReporter):',
+        "    def get_status(self, task): _ev(['rep', 'get_status', task.name])",
+        "    def execute_task(self, task): _ev(['rep', 'execute', task.name])",
+        "    def add_failure(self, task, fail_info): _ev(['rep', 'failure', task.name])",
+        "    def add_success(self, task): _ev(['rep', 'success', task.name])",
+        "    def skip_uptodate(self, task): _ev(['rep', 'up-to-date', task.name])",
+        "    def skip_ignore(self, task): _ev(['rep', 'ignored', task.name])",
+        "    def runtime_error(self, msg): _ev(['rep', 'runtime_error', msg[:200]])",
+        'DOIT_CONFIG = {%s}' % ', '.join(cfg),
+        'def _mk(full, targets):',
+        '    def action(**kw):',
+        "        _ev(['run', full, os.getcwd(), {k: kw[k] for k in sorted(kw)}])",
+        '        for tg in targets:',
+        "            with open(tg, 'w') as f:",
+        '                f.write(full)',
+        '        return True',
+        '    return action',
+    ]
+    for t in case['tasks']:
+        lines.append('def task_%s():' % t['name'])
+        if t.get('subs') is not None:
+            if t.get('task_dep'):
+                lines.append("    yield {'name': None, 'task_dep': %r}" % list(t['task_dep']))
+            for s in t['subs']:
+                lines.append('    yield ' + tdict('%s:%s' % (t['name'], s['name']), s, s['name']))
+            if not t['subs'] and not t.get('task_dep'):
+                lines.append('    return\n    yield')
+        else:
+            lines.append('    return ' + tdict(t['name'], t))
+    return '\n'.join(lines) + '\n'
+
+
+def impl_dodo(case, workdir):
+    """`python -m doit <loader options> run [--single] ARGV` as a subprocess; same observables as impl_cli plus the working
+    directory the actions saw"""
+    import json as _json
+    import subprocess
+    dodo_rel, inv, lopts, env_extra, eff = LAYOUTS[case['layout']]
+    for name in os.listdir(workdir):
+        p = os.path.join(workdir, name)
+        if os.path.isdir(p):
+            shutil.rmtree(p, ignore_errors=True)
+        else:
+            os.remove(p)
+    root = os.path.realpath(workdir)
+    for dname in ('proj/sub/deep', 'work'):
+        os.makedirs(os.path.join(root, dname))
+    effdir = os.path.join(root, eff)
+    _ROOT[0] = effdir
+    ev_path = os.path.join(root, 'events.jsonl')
+    with open(os.path.join(root, dodo_rel), 'w') as f:
+        f.write(dodo_source(case, ev_path))
+    with open(os.path.join(effdir, SRC_FILE), 'w') as f:
+        f.write('src')
+    for full, d, grp, is_group in flat_defs(case):
+        for tg in ([] if is_group else mtargets(d) + mfile_dep(d)):
+            with open(os.path.join(effdir, sub(tg)), 'w') as f:
+                f.write('pre')
+    lopts = [o.replace('@ROOT@', root) for o in lopts]
+    # loader options are accepted before the command name and among the options of `run`
+    if case.get('lopts_after'):
+        argv = ['run'] + lopts
+    else:
+        argv = lopts + ['run']
+    argv += (['--single'] if case.get('single') else []) + [sub(a) for a in case['argv']]
+    env = dict(os.environ)
+    env.update(env_extra)
+    env['PYTHONPATH'] = common.REPO
+    env['PYTHONDONTWRITEBYTECODE'] = '1'
+    for k in ('DOIT_FILE', 'DOIT_SEEK_FILE'):
+        if k not in env_extra:
+            env.pop(k, None)
+    try:
+        p = subprocess.run([common.PYTHON, '-m', 'doit'] + argv, cwd=os.path.join(root, inv), env=env,
+                           stdout=subprocess.PIPE, stderr=subprocess.PIPE, text=True, timeout=120)
+        code, err = p.returncode, p.stderr
+    except subprocess.TimeoutExpired:
+        code, err = ['exc', 'Timeout'], ''
+    events = []
+    if os.path.exists(ev_path):
+        with open(ev_path) as f:
+            events = [_json.loads(l) for l in f if l.strip()]
+    processed, started, rec = [], [], []
+    for e in events:
+        if e[0] != 'rep':
+            continue
+        rec.append(e[1:])
+        if e[1] == 'runtime_error':
+            continue
+        if e[2] not in processed:
+            processed.append(e[2])
+        if e[1] != 'get_status' and e[2] not in started:
+            started.append(e[2])
+    runs = [e for e in events if e[0] == 'run']
+    if code == 1 and 'Traceback' in err and not processed:
+        # an exception escaped DoitMain.run (the interpreter prints it and exits 1)
+        code = ['exc', err.strip().split('\n')[-1].split(':')[0]]
+    return {'actions_only': False, 'exit': code, 'error': classify_stderr(err), 'processed': processed, 'started': started,
+            'ran': [e[1] for e in runs], 'kwargs': {e[1]: e[3] for e in runs}, 'reporter': rec,
+            'runtime_error': [r[1] for r in rec if r[0] == 'runtime_error'],
+            'cwds': sorted(set(os.path.relpath(e[2], root) for e in runs)), 'expected_cwd': eff}
+
+
+def gen_dodo_case(rng):
+    """a case for the dodo-file tier: identifier task names, a layout, sometimes a target named relative to the directory
+    doit was started from instead of the directory the tasks work in"""
+    for _ in range(40):
+        case = gen_case(random_sub(rng), delayed_ok=False, entry_ok=False)
+        case.pop('reporter', None)
+        case.pop('reporter_via', None)
+        if dodo_ok(case):
+            break
+    else:
+        case = {'tasks': [gen_taskdef(rng, 'a', [], [], allow_attrs=False)], 'argv': ['a'], 'default': None, 'single': False}
+    case['layout'] = rng.choice(sorted(LAYOUTS))
+    case['lopts_after'] = rng.random() < 0.3
+    inv, eff = LAYOUTS[case['layout']][1], LAYOUTS[case['layout']][4]
+    targets = [tg for f in flat_defs(case) if not f[3] for tg in mtargets(f[1]) if not tg.startswith(ABS)]
+    if targets and inv != eff and rng.random() < 0.35:
+        # the user names the file as seen from where doit was started: not the declared string
+        rel = os.path.relpath(os.path.join('/r', eff, rng.choice(targets)), os.path.join('/r', inv))
+        case['argv'] = list(case['argv']) + [rel]
+    return case
+
+
+def random_sub(rng):
+    import random
+    return random.Random(rng.getrandbits(64))
